@@ -6,8 +6,8 @@ namespace WW.Collector
 
 /-! ### collection -/
 
-theorem collectVaults_apply (i : Nat) : ∀ (vs : List Vault) (b : Nat → Nat),
-    collectVaults vs b i = b i + vaultsCollected i vs := by
+theorem collectVaults_apply (l : Vault → Bool) (i : Nat) : ∀ (vs : List Vault) (b : Nat → Nat),
+    collectVaults l vs b i = b i + vaultsCollected l i vs := by
   intro vs
   induction vs with
   | nil => intro b; simp [collectVaults, vaultsCollected]
@@ -21,8 +21,8 @@ theorem collectVaults_apply (i : Nat) : ∀ (vs : List Vault) (b : Nat → Nat),
     · have h' : ¬ i = v.asset := fun e => h e.symm
       simp [h, h']
 
-theorem collectPools_apply (i : Nat) : ∀ (ps : List Pool) (b : Nat → Nat),
-    collectPools ps b i = b i + poolsCollected i ps := by
+theorem collectPools_apply (l : Pool → Bool) (i : Nat) : ∀ (ps : List Pool) (b : Nat → Nat),
+    collectPools l ps b i = b i + poolsCollected l i ps := by
   intro ps
   induction ps with
   | nil => intro b; simp [collectPools, poolsCollected]
@@ -105,14 +105,14 @@ theorem aggregate_spec (dist : Nat) (router : Nat → Nat → Nat → Nat) (stag
       | inl hl => exact Or.inl hl
       | inr hr2 => exact Or.inr ⟨hr2.1, hr2.2.1, hr2.2.2.1, List.mem_cons_of_mem _ hr2.2.2.2⟩
 
-theorem vaultAssets_ne (cfg : Cfg) (vs : List Vault) : ∀ c ∈ vaultAssets cfg vs, c ≠ cfg.dist := by
+theorem vaultAssets_ne (cfg : Cfg) (l : Vault → Bool) (vs : List Vault) : ∀ c ∈ vaultAssets cfg l vs, c ≠ cfg.dist := by
   intro c hc
   unfold vaultAssets at hc
   have := (List.mem_filter.mp hc).2
   simp only [Bool.and_eq_true, bne_iff_ne, ne_eq] at this
   exact this.1
 
-theorem poolAssets_ne (cfg : Cfg) (ps : List Pool) : ∀ c ∈ poolAssets cfg ps, c ≠ cfg.dist := by
+theorem poolAssets_ne (cfg : Cfg) (l : Pool → Bool) (ps : List Pool) : ∀ c ∈ poolAssets cfg l ps, c ≠ cfg.dist := by
   intro c hc
   unfold poolAssets at hc
   have := (List.mem_filter.mp hc).2
@@ -125,16 +125,16 @@ theorem forwardFees_spec {cfg : Cfg} {s : St} {sender epochId : Nat} {router : N
     {acc : Nat → Nat → Nat} {o : Out} (h : forwardFees cfg s sender epochId router acc = .ok o) :
     sender = cfg.distributor ∧
     ∃ b2 in0 sw0 b3 in1 sw1,
-      aggregate cfg.dist router 0 (poolsAfter s.pools) s.routes (vaultAssets cfg s.vaults)
-        (collectPools s.pools (collectVaults s.vaults s.bal)) = .ok (b2, in0, sw0) ∧
-      aggregate cfg.dist router 1 (poolsAfter s.pools) s.routes (poolAssets cfg (poolsAfter s.pools)) b2 =
-        .ok (b3, in1, sw1) ∧
+      aggregate cfg.dist router 0 (poolsAfter (fwdPools s) s.pools) s.routes (vaultAssets cfg (fwdVaults s) s.vaults)
+        (collectPools (fwdPools s) s.pools (collectVaults (fwdVaults s) s.vaults s.bal)) = .ok (b2, in0, sw0) ∧
+      aggregate cfg.dist router 1 (poolsAfter (fwdPools s) s.pools) s.routes
+        (poolAssets cfg (fwdPools s) (poolsAfter (fwdPools s) s.pools)) b2 = .ok (b3, in1, sw1) ∧
       takeOf s (b3 cfg.dist) ≤ b3 cfg.dist ∧
       o = { st := { s with bal := upd b3 cfg.dist 0,
                            dao := s.dao + takeOf s (b3 cfg.dist),
                            trh := if takeOf s (b3 cfg.dist) = 0 then s.trh else s.trh ++ [(epochId, takeOf s (b3 cfg.dist))],
-                           pools := addAcc acc 0 (poolsAfter s.pools),
-                           vaults := vaultsAfter s.vaults },
+                           pools := addAcc acc 0 (poolsAfter (fwdPools s) s.pools),
+                           vaults := vaultsAfter (fwdVaults s) s.vaults },
             inflow := if b3 cfg.dist - takeOf s (b3 cfg.dist) = 0 then none else some (b3 cfg.dist - takeOf s (b3 cfg.dist)),
             take := takeOf s (b3 cfg.dist), base := b3 cfg.dist, swappedIn := in0 + in1, swaps := sw0 ++ sw1 } := by
   unfold forwardFees at h
@@ -143,14 +143,15 @@ theorem forwardFees_spec {cfg : Cfg} {s : St} {sender epochId : Nat} {router : N
   · rename_i hs
     refine ⟨Classical.not_not.mp hs, ?_⟩
     simp only at h
-    cases h0 : aggregate cfg.dist router 0 (poolsAfter s.pools) s.routes (vaultAssets cfg s.vaults)
-        (collectPools s.pools (collectVaults s.vaults s.bal)) with
+    cases h0 : aggregate cfg.dist router 0 (poolsAfter (fwdPools s) s.pools) s.routes (vaultAssets cfg (fwdVaults s) s.vaults)
+        (collectPools (fwdPools s) s.pools (collectVaults (fwdVaults s) s.vaults s.bal)) with
     | err => rw [h0] at h; simp at h
     | panic => rw [h0] at h; simp at h
     | ok pr =>
       obtain ⟨b2, in0, sw0⟩ := pr
       rw [h0] at h; simp only at h
-      cases h1 : aggregate cfg.dist router 1 (poolsAfter s.pools) s.routes (poolAssets cfg (poolsAfter s.pools)) b2 with
+      cases h1 : aggregate cfg.dist router 1 (poolsAfter (fwdPools s) s.pools) s.routes
+          (poolAssets cfg (fwdPools s) (poolsAfter (fwdPools s) s.pools)) b2 with
       | err => rw [h1] at h; simp at h
       | panic => rw [h1] at h; simp at h
       | ok pr1 =>
@@ -192,32 +193,39 @@ theorem sent_add_kept (r : Bool) (p : Nat) : sent r p + kept r p = p := by
   unfold sent kept
   split <;> omega
 
-theorem poolsPending_after (i : Nat) : ∀ ps : List Pool,
-    poolsPending i (poolsAfter ps) + poolsCollected i ps = poolsPending i ps := by
+theorem vsent_add_vkept (l : Bool) (p : Nat) : vsent l p + vkept l p = p := by
+  unfold vsent vkept
+  split <;> omega
+
+theorem poolsPending_after (l : Pool → Bool) (i : Nat) : ∀ ps : List Pool,
+    poolsPending i (poolsAfter l ps) + poolsCollected l i ps = poolsPending i ps := by
   intro ps
   induction ps with
   | nil => rfl
   | cons p ps ih =>
-    have ih' : poolsPending i (List.map (fun p => { p with pa := kept p.reg p.pa, pb := kept p.reg p.pb }) ps)
-        + poolsCollected i ps = poolsPending i ps := ih
+    have ih' : poolsPending i (List.map (fun p => { p with pa := kept (l p) p.pa, pb := kept (l p) p.pb }) ps)
+        + poolsCollected l i ps = poolsPending i ps := ih
     simp only [poolsAfter, List.map, poolsPending, poolsCollected]
-    have h1 := sent_add_kept p.reg p.pa
-    have h2 := sent_add_kept p.reg p.pb
+    have h1 := sent_add_kept (l p) p.pa
+    have h2 := sent_add_kept (l p) p.pb
     by_cases ha : p.a = i <;> by_cases hb : p.b = i <;> simp only [ha, hb, if_true, if_false] <;> omega
 
-theorem vaultsCollected_after (i : Nat) : ∀ vs : List Vault, vaultsCollected i (vaultsAfter vs) = 0 := by
+/-- what a page collection takes out of the vaults' pending ledgers is what it moves into the collector -/
+theorem vaultsPending_after (l : Vault → Bool) (i : Nat) : ∀ vs : List Vault,
+    vaultsPending i (vaultsAfter l vs) + vaultsCollected l i vs = vaultsPending i vs := by
   intro vs
   induction vs with
   | nil => rfl
   | cons v vs ih =>
-    have ih' : vaultsCollected i (List.map (fun v => { v with pend := 0 }) vs) = 0 := ih
-    simp only [vaultsAfter, List.map, vaultsCollected]
-    rw [ih']
-    split <;> rfl
+    have ih' : vaultsPending i (List.map (fun v => { v with pend := vkept (l v) v.pend }) vs)
+        + vaultsCollected l i vs = vaultsPending i vs := ih
+    simp only [vaultsAfter, List.map, vaultsPending, vaultsCollected]
+    have h1 := vsent_add_vkept (l v) v.pend
+    by_cases ha : v.asset = i <;> simp only [ha, if_true, if_false] <;> omega
 
-theorem vaultsCollected_set (i : Nat) : ∀ (vs : List Vault) (k : Nat) (v : Vault), vs[k]? = some v →
-    vaultsCollected i (vs.set k { v with pend := 0 }) + (if v.asset = i then v.pend else 0) =
-      vaultsCollected i vs := by
+theorem vaultsPending_set (i : Nat) : ∀ (vs : List Vault) (k : Nat) (v : Vault), vs[k]? = some v →
+    vaultsPending i (vs.set k { v with pend := 0 }) + (if v.asset = i then v.pend else 0) =
+      vaultsPending i vs := by
   intro vs
   induction vs with
   | nil => intro k v h; simp at h
@@ -227,12 +235,12 @@ theorem vaultsCollected_set (i : Nat) : ∀ (vs : List Vault) (k : Nat) (v : Vau
     | zero =>
       simp only [List.getElem?_cons_zero, Option.some.injEq] at h
       subst h
-      simp only [List.set, vaultsCollected]
+      simp only [List.set, vaultsPending]
       split <;> omega
     | succ k =>
       simp only [List.getElem?_cons_succ] at h
       have := ih k v h
-      simp only [List.set, vaultsCollected]
+      simp only [List.set, vaultsPending]
       omega
 
 theorem poolsPending_set (i : Nat) : ∀ (ps : List Pool) (k : Nat) (p : Pool), ps[k]? = some p →
@@ -262,21 +270,22 @@ theorem poolsPending_set (i : Nat) : ∀ (ps : List Pool) (k : Nat) (p : Pool), 
     contracts send, and that is exactly what leaves their pending ledgers -/
 theorem collectFees_spec {s s' : St} {sender : Nat} {f : FeesFor} (h : collectFees s sender f = .ok s') (i : Nat) :
     s'.bal i = s.bal i + directCollected s f i ∧
-    vaultsCollected i s'.vaults + poolsPending i s'.pools + directCollected s f i =
-      vaultsCollected i s.vaults + poolsPending i s.pools := by
+    vaultsPending i s'.vaults + poolsPending i s'.pools + directCollected s f i =
+      vaultsPending i s.vaults + poolsPending i s.pools := by
   cases f with
-  | vaultFactory =>
+  | vaultFactory lim =>
     simp only [collectFees] at h
     injection h with h; subst h
     simp only [directCollected]
-    refine ⟨collectVaults_apply i _ _, ?_⟩
-    rw [vaultsCollected_after]; omega
-  | poolFactory =>
+    refine ⟨collectVaults_apply _ i _ _, ?_⟩
+    have := vaultsPending_after (vaultListed s.vaults (vaultPage lim)) i s.vaults
+    omega
+  | poolFactory lim =>
     simp only [collectFees] at h
     injection h with h; subst h
     simp only [directCollected]
-    refine ⟨collectPools_apply i _ _, ?_⟩
-    have := poolsPending_after i s.pools
+    refine ⟨collectPools_apply _ i _ _, ?_⟩
+    have := poolsPending_after (poolListed s.pools (poolPage lim)) i s.pools
     omega
   | wrongFactory => simp only [collectFees] at h; cases h
   | onePool k =>
@@ -300,7 +309,7 @@ theorem collectFees_spec {s s' : St} {sender : Nat} {f : FeesFor} (h : collectFe
       injection h with h; subst h
       simp only [directCollected, hk]
       refine ⟨add_apply _ _ _ _, ?_⟩
-      have := vaultsCollected_set i s.vaults k v hk
+      have := vaultsPending_set i s.vaults k v hk
       omega
 
 /-- a direct `CollectFees` touches nothing but the collector's balances and the pending ledgers -/
@@ -308,8 +317,8 @@ theorem collectFees_rest {s s' : St} {sender : Nat} {f : FeesFor} (h : collectFe
     s'.dao = s.dao ∧ s'.trh = s.trh ∧ s'.rate = s.rate ∧ s'.active = s.active ∧ s'.daoSet = s.daoSet ∧
     s'.routes = s.routes := by
   cases f with
-  | vaultFactory => simp only [collectFees] at h; injection h with h; subst h; exact ⟨rfl, rfl, rfl, rfl, rfl, rfl⟩
-  | poolFactory => simp only [collectFees] at h; injection h with h; subst h; exact ⟨rfl, rfl, rfl, rfl, rfl, rfl⟩
+  | vaultFactory lim => simp only [collectFees] at h; injection h with h; subst h; exact ⟨rfl, rfl, rfl, rfl, rfl, rfl⟩
+  | poolFactory lim => simp only [collectFees] at h; injection h with h; subst h; exact ⟨rfl, rfl, rfl, rfl, rfl, rfl⟩
   | wrongFactory => simp only [collectFees] at h; cases h
   | onePool k =>
     simp only [collectFees] at h
@@ -335,10 +344,10 @@ theorem aggregateFees_spec {cfg : Cfg} {s s' : St} {sender : Nat} {f : FeesFor} 
     rw [hc] at h; simp only at h
     have hne : ∀ c ∈ cands, c ≠ cfg.dist := by
       cases f with
-      | vaultFactory =>
-        simp only [aggCands, Option.some.injEq] at hc; subst hc; exact vaultAssets_ne cfg s.vaults
-      | poolFactory =>
-        simp only [aggCands, Option.some.injEq] at hc; subst hc; exact poolAssets_ne cfg s.pools
+      | vaultFactory lim =>
+        simp only [aggCands, Option.some.injEq] at hc; subst hc; exact vaultAssets_ne cfg _ s.vaults
+      | poolFactory lim =>
+        simp only [aggCands, Option.some.injEq] at hc; subst hc; exact poolAssets_ne cfg _ s.pools
       | wrongFactory => simp [aggCands] at hc
       | onePool k => simp [aggCands] at hc
       | oneVault k => simp [aggCands] at hc
@@ -351,6 +360,135 @@ theorem aggregateFees_spec {cfg : Cfg} {s s' : St} {sender : Nat} {f : FeesFor} 
       injection h with h; injection h with h1 h2; injection h2 with h2 h3
       subst h2; subst h3
       exact ⟨cands, b, rfl, hne, ha, h1.symm⟩
+
+/-! ### factory pages: a page at least as long as the factory's map lists every entry -/
+
+theorem keyLt_irrefl (k : Nat × Nat) : keyLt k k = false := by
+  simp [keyLt]
+
+theorem poolRank_le_regCount (k : Nat × Nat) : ∀ ps : List Pool, poolRank k ps ≤ regCount ps := by
+  intro ps
+  induction ps with
+  | nil => exact Nat.le_refl _
+  | cons q qs ih =>
+    simp only [poolRank, regCount]
+    cases hr : q.reg <;> cases hk : keyLt (poolKey q) k <;> simp <;> omega
+
+/-- a registered pair of the list is not counted in its own rank -/
+theorem poolRank_lt_regCount : ∀ (ps : List Pool) (p : Pool), p ∈ ps → p.reg = true →
+    poolRank (poolKey p) ps < regCount ps := by
+  intro ps
+  induction ps with
+  | nil => intro p hp; cases hp
+  | cons q qs ih =>
+    intro p hp hr
+    simp only [poolRank, regCount]
+    cases List.mem_cons.mp hp with
+    | inl he =>
+      subst he
+      have := poolRank_le_regCount (poolKey p) qs
+      rw [hr, keyLt_irrefl]
+      simp
+      omega
+    | inr hm =>
+      have := ih p hm hr
+      cases hq : q.reg <;> cases hk : keyLt (poolKey q) (poolKey p) <;> simp <;> omega
+
+theorem vaultRank_le_length (a : Nat) : ∀ vs : List Vault, vaultRank a vs ≤ vs.length := by
+  intro vs
+  induction vs with
+  | nil => exact Nat.le_refl _
+  | cons w ws ih =>
+    simp only [vaultRank, List.length_cons]
+    split <;> omega
+
+theorem vaultRank_lt_length : ∀ (vs : List Vault) (v : Vault), v ∈ vs → vaultRank v.asset vs < vs.length := by
+  intro vs
+  induction vs with
+  | nil => intro v hv; cases hv
+  | cons w ws ih =>
+    intro v hv
+    simp only [vaultRank, List.length_cons]
+    cases List.mem_cons.mp hv with
+    | inl he =>
+      subst he
+      have := vaultRank_le_length v.asset ws
+      simp only [Nat.lt_irrefl, if_false]
+      omega
+    | inr hm =>
+      have := ih v hm
+      split <;> omega
+
+theorem poolListed_of_regCount_le {ps : List Pool} {n : Nat} (h : regCount ps ≤ n) :
+    ∀ p ∈ ps, poolListed ps n p = p.reg := by
+  intro p hp
+  unfold poolListed
+  cases hr : p.reg with
+  | false => rfl
+  | true =>
+    have := poolRank_lt_regCount ps p hp hr
+    simp only [Bool.true_and, decide_eq_true_eq]
+    omega
+
+theorem vaultListed_of_length_le {vs : List Vault} {n : Nat} (h : vs.length ≤ n) :
+    ∀ v ∈ vs, vaultListed vs n v = true := by
+  intro v hv
+  unfold vaultListed
+  have := vaultRank_lt_length vs v hv
+  simp only [decide_eq_true_eq]
+  omega
+
+theorem poolsAfter_congr {l l' : Pool → Bool} : ∀ ps : List Pool, (∀ p ∈ ps, l p = l' p) →
+    poolsAfter l ps = poolsAfter l' ps := by
+  intro ps
+  induction ps with
+  | nil => intro _; rfl
+  | cons p ps ih =>
+    intro h
+    have hp := h p List.mem_cons_self
+    have ht : poolsAfter l ps = poolsAfter l' ps := ih fun q hq => h q (List.mem_cons_of_mem _ hq)
+    simp only [poolsAfter, List.map] at ht ⊢
+    rw [hp, ht]
+
+theorem poolsCollected_congr {l l' : Pool → Bool} (i : Nat) : ∀ ps : List Pool, (∀ p ∈ ps, l p = l' p) →
+    poolsCollected l i ps = poolsCollected l' i ps := by
+  intro ps
+  induction ps with
+  | nil => intro _; rfl
+  | cons p ps ih =>
+    intro h
+    have hp := h p List.mem_cons_self
+    have ht := ih fun q hq => h q (List.mem_cons_of_mem _ hq)
+    simp only [poolsCollected]
+    rw [hp, ht]
+
+/-- when every vault is on the page, all pending vault fees are collected and every vault is emptied -/
+theorem vaultsCollected_all {l : Vault → Bool} (i : Nat) : ∀ vs : List Vault, (∀ v ∈ vs, l v = true) →
+    vaultsCollected l i vs = vaultsPending i vs := by
+  intro vs
+  induction vs with
+  | nil => intro _; rfl
+  | cons v vs ih =>
+    intro h
+    have hv := h v List.mem_cons_self
+    have ht := ih fun q hq => h q (List.mem_cons_of_mem _ hq)
+    simp only [vaultsCollected, vaultsPending, vsent]
+    rw [hv, ht]
+    simp only [if_true]
+
+theorem vaultsAfter_all {l : Vault → Bool} : ∀ vs : List Vault, (∀ v ∈ vs, l v = true) →
+    vaultsAfter l vs = vs.map fun v => { v with pend := 0 } := by
+  intro vs
+  induction vs with
+  | nil => intro _; rfl
+  | cons v vs ih =>
+    intro h
+    have hv := h v List.mem_cons_self
+    have ht : vaultsAfter l vs = vs.map fun v => { v with pend := 0 } :=
+      ih fun q hq => h q (List.mem_cons_of_mem _ hq)
+    simp only [vaultsAfter, List.map, vkept] at ht ⊢
+    rw [hv, ht]
+    simp only [if_true]
 
 end WW.Collector
 
